@@ -21,6 +21,9 @@ METHODS = {
     "Bx": [("get", True, [], "T", "self.val"),
            ("count", True, [], "int32", "self.cnt")],
 }
+# inherent methods of ONE instantiation of a generic type: they exist for receivers of exactly that type
+INST_METHODS = {("Bx", "int32"): [("incr", True, [], "int32", "self.val + 1")],
+                ("Bx", "string"): [("shout", True, [], "string", 'self.val + "!"')]}
 TRAITS = {"Shw": [("show", [], "string"), ("size", ["int32"], "int32")]}
 IMPLS = {("Shw", "Pt"): {"show": '"pt"', "size": "k + self.xs"}, ("Shw", "int32"): {"show": '"i"', "size": "k + self"}}
 
@@ -43,6 +46,12 @@ def decl_text():
             params = ([f"self: {n}{g}"] if has_self else []) + [f"{a}: {t}" for a, t in ps]
             L.append(f"    fn {m}(" + ", ".join(params) + f") -> {ret} {{ {body} }}")
         L.append("}")
+    for (n, arg), ms in INST_METHODS.items():
+        L.append(f"impl {n}[{arg}] {{")
+        for m, has_self, ps, ret, body in ms:
+            params = ([f"self: {n}[{arg}]"] if has_self else []) + [f"{a}: {t}" for a, t in ps]
+            L.append(f"    fn {m}(" + ", ".join(params) + f") -> {ret} {{ {body} }}")
+        L.append("}")
     for tr, ms in TRAITS.items():
         L.append(f"trait {tr} {{")
         for m, ps, ret in ms:
@@ -62,6 +71,7 @@ def decl_text():
 MAIN_HEAD = """fn main() -> unit {
     let pt: Pt = Pt { xs: 4, ys: 5 };
     let bx: Bx[string] = Bx { val: "é世界", cnt: 2 }; // ünïcödé comment
+    let bi: Bx[int32] = Bx { val: 7, cnt: 1 };
     let wr = Wr { inner: pt, label: "w" };
     let rf = ref(pt);
     let tp = (7, pt, "t");
@@ -71,8 +81,8 @@ MAIN_HEAD = """fn main() -> unit {
     let Pt { xs, ys } = pt;
     let sh = Pt { xs, ys };
 """
-MAIN_TAIL = """    let n = pt.norm(3) + wr.inner.xs + bx.count() + twice(inc, 2) + sh.xs + xs + ys;
-    let s = ident(bx.get()) + Shw::show(pt) + ident("x");
+MAIN_TAIL = """    let n = pt.norm(3) + wr.inner.xs + bx.count() + twice(inc, 2) + sh.xs + xs + ys + bi.incr() + bi.get();
+    let s = ident(bx.get()) + Shw::show(pt) + ident("x") + bx.shout();
     let m = match col { Col::Red => 0, Col::Grn(g) => g, Col::Mix(a, b) => if b { a } else { 0 } };
     let o = match opt { Opt::Non => 0, Opt::Som(v) => v };
     let _ = string_println(s + int32_to_string(n + m + o + Shw::size(pt, 1) + tp.0));
@@ -89,12 +99,13 @@ def call_args(ps, subst=None):
     return ", ".join(ARG[(subst or {}).get(t, t)] for _, t in ps)
 
 
-def members_dot(ty):
-    """names a value of struct type `ty` has after `.`: fields and inherent methods taking self -> completion text"""
+def members_dot(ty, inst=None):
+    """names a value of struct type `ty` (instantiated at `inst`) has after `.`: fields and inherent methods taking self ->
+    completion text; methods of an impl for one instantiation exist only for receivers of that instantiation"""
     out = {}
     for f, _ in STRUCTS[ty]["fields"]:
         out[f] = f
-    for m, has_self, ps, ret, body in METHODS.get(ty, []):
+    for m, has_self, ps, ret, body in METHODS.get(ty, []) + INST_METHODS.get((ty, inst), []):
         if has_self:
             out[m] = m + "(" + call_args(ps) + ")"
     return out
@@ -123,10 +134,10 @@ def sites():
     out = []
     decl = decl_text()
     base_line = (decl + MAIN_HEAD).count("\n")
-    dots = [("pt", "Pt"), ("wr", "Wr"), ("wr.inner", "Pt"), ("bx", "Bx"), ("rf", "Pt"), ("tp.1", "Pt"), ("pt.flip()", "Pt"), ("Pt::origin()", "Pt"),
-            ("(pt)", "Pt"), ("ident(pt)", "Pt")]
-    for recv, ty in dots:
-        mem = members_dot(ty)
+    dots = [("pt", "Pt"), ("wr", "Wr"), ("wr.inner", "Pt"), ("bx", "Bx", "string"), ("bi", "Bx", "int32"), ("rf", "Pt"), ("tp.1", "Pt"), ("pt.flip()", "Pt"),
+            ("Pt::origin()", "Pt"), ("(pt)", "Pt"), ("ident(pt)", "Pt")]
+    for recv, ty, *inst in dots:
+        mem = members_dot(ty, inst[0] if inst else None)
         for prefix in [""] + sorted({n[:1] for n in mem}) + sorted({n[:2] for n in mem}):
             for closing in (";", ""):
                 stem = f"    let zz = {recv}."
